@@ -405,10 +405,10 @@ theorem C20.pspace_astype_mixed_dtype_casts :
 /-- `SetUnion.__eq__` / `SetIntersection.__eq__` (mutual inclusion of the member tuples, as
 repaired by commit 02921b9) and `CartesianProduct.__eq__` (tuple equality), for members that
 are fields, `Strings`, `EmptySet`, `UniversalSet`, interval products (of any, also mixed,
-dimensions — since the repair of C20-F1), grids or spaces of any kind: never raise, reflexive,
-symmetric, transitive — for any number of members, in any order, with duplicates.
-Missing for the full statement: `FiniteSet` members (`_partial`). -/
-theorem C20.composite_eq_equivalence_partial :
+dimensions — since the repair of C20-F1), grids, `FiniteSet`s or spaces of any kind, i.e. ALL
+non-composite members: never raise, reflexive, symmetric, transitive — for any number of
+members, in any order, with duplicates. -/
+theorem C20.composite_eq_equivalence :
     (∀ a b : List Leaf, (∀ x ∈ a, x.simple) → (∀ x ∈ b, x.simple) →
       ((Obj.union a).eqO (.union b)).isSome = true ∧
       ((Obj.inter a).eqO (.inter b)).isSome = true ∧
@@ -480,3 +480,63 @@ theorem C20.old_union_eq_not_reflexive (isElem : Leaf → Leaf → Bool)
       a.all (fun s => b.any (fun t => isElem s t)) && b.all (fun s => a.any (fun t => isElem s t))
     old (x :: l) (x :: l) = false := by
   simp [h]
+
+/-- `FiniteSet.__eq__` (mutual containment of the element tuples) is an equivalence, and equal
+finite sets have equal hashes: `hash((type, frozenset(elements)))`, the element tuples being
+duplicate-free (`unique` in the constructor). -/
+theorem C20.finite_eq_hash :
+    (∀ a : List Atom, finiteEq a a = true) ∧
+    (∀ a b : List Atom, finiteEq a b = true → finiteEq b a = true) ∧
+    (∀ a b c : List Atom, finiteEq a b = true → finiteEq b c = true → finiteEq a c = true) ∧
+    (∀ (heap : Nat → String) (a b : List Atom), a.Nodup → b.Nodup → finiteEq a b = true →
+      SHKey.eqv ((Leaf.finite a).hk heap) ((Leaf.finite b).hk heap) = true) := by
+  refine ⟨?_, ?_, ?_, ?_⟩
+  · intro a; rw [finiteEq_iff]; intro x; exact Iff.rfl
+  · intro a b h; rw [finiteEq_iff] at h ⊢; intro x; exact (h x).symm
+  · intro a b c h1 h2; rw [finiteEq_iff] at h1 h2 ⊢; intro x; exact (h1 x).trans (h2 x)
+  · intro heap a b na nb h
+    have hp : a.Perm b := (List.perm_ext_iff_of_nodup na nb).2 ((finiteEq_iff a b).1 h)
+    simp only [Leaf.hk, SHKey.eqv, decide_true, Bool.true_and]
+    exact List.isPerm_iff.2 (hp.map atomHk)
+
+example : finiteEq [.int 1, .int 2, .str "a"] [.str "a", .int 2, .int 1] = true := by decide
+
+/-- Equal unions / intersections / Cartesian products have equal hashes
+(`hash((type, frozenset(self.sets)))`, resp. `hash((type, self.sets))`): for every number of
+members and every order, members being any non-composite sets other than `FiniteSet`s
+(fields, `Strings`, interval products, grids, spaces of any kind, …), with duplicate-free
+member tuples for unions and intersections (`unique` in the constructors). -/
+theorem C20.composite_hash_respects_eq (heap : Nat → String) (a b : List Leaf)
+    (ha : ∀ x ∈ a, x.simple) (hb : ∀ x ∈ b, x.simple) :
+    ((a.map Leaf.key).Nodup → (b.map Leaf.key).Nodup →
+      (Obj.union a).eqO (.union b) = some true →
+      SHKey.eqv ((Obj.union a).hk heap) ((Obj.union b).hk heap) = true) ∧
+    ((a.map Leaf.key).Nodup → (b.map Leaf.key).Nodup →
+      (Obj.inter a).eqO (.inter b) = some true →
+      SHKey.eqv ((Obj.inter a).hk heap) ((Obj.inter b).hk heap) = true) ∧
+    ((Obj.cartesian a).eqO (.cartesian b) = some true →
+      SHKey.eqv ((Obj.cartesian a).hk heap) ((Obj.cartesian b).hk heap) = true) := by
+  have hr : ∀ x y : Leaf, x.simple → y.simple → x.eqO y = some (x.eqB y) := Leaf.eqO_simple
+  have hk : ∀ x y : Leaf, x.simple → y.simple → (x.eqB y = true ↔ x.key = y.key) := Leaf.eqB_iff
+  have perm : (a.map Leaf.key).Nodup → (b.map Leaf.key).Nodup →
+      mutualInclO Leaf.eqO a b = some true →
+      (memberKeys heap a).isPerm (memberKeys heap b) = true := by
+    intro na nb h
+    rw [mutualInclO_total Leaf.eqO Leaf.eqB Leaf.simple hr a b ha hb] at h
+    have hm := (mutualInclB_iff Leaf.eqB Leaf.key Leaf.simple hk a b ha hb).1 (by simpa using h)
+    have hp : (a.map Leaf.key).Perm (b.map Leaf.key) := (List.perm_ext_iff_of_nodup na nb).2 hm
+    exact List.isPerm_iff.2 (perm_map_of_perm_key Leaf.key (Leaf.hkPlain heap) a b hp
+      (fun x _ y _ hxy => Leaf.hkPlain_of_key heap x y hxy))
+  refine ⟨?_, ?_, ?_⟩
+  · intro na nb h
+    simp only [Obj.eqO] at h
+    simp [Obj.hk, SHKey.eqv, perm na nb h]
+  · intro na nb h
+    simp only [Obj.eqO] at h
+    simp [Obj.hk, SHKey.eqv, perm na nb h]
+  · intro h
+    simp only [Obj.eqO] at h
+    have hkeys := ((tupleEqO_iff Leaf.eqO Leaf.eqB Leaf.key Leaf.simple hr hk a b ha hb).2).1 h
+    have := map_eq_of_map_key_eq Leaf.key (Leaf.hkPlain heap)
+      (fun x y hxy => Leaf.hkPlain_of_key heap x y hxy) a b hkeys
+    simp [Obj.hk, SHKey.eqv, memberKeys, this]
